@@ -81,6 +81,10 @@ pub struct Families {
     pub seeded_critical: bool,
     /// pinned: one comment of each shape after every token of the small corpus files
     pub comment_enum: bool,
+    /// pinned: degenerate programs (empty, whitespace, comment-only, shebang-only, one token …)
+    pub tiny: bool,
+    /// pinned: every corpus file rewritten with CRLF and with mixed line endings
+    pub crlf_corpus: bool,
 }
 
 impl Work {
@@ -119,6 +123,12 @@ impl Work {
         }
         if fam.comment_enum && !only_seeded {
             n += self.corpus.len() * 3;
+        }
+        if fam.tiny && !only_seeded {
+            n += 1;
+        }
+        if fam.crlf_corpus && !only_seeded {
+            n += self.corpus.len();
         }
         let seeded = match tier {
             Tier::Quick => 600,
@@ -269,6 +279,53 @@ impl Work {
                 return;
             }
             i -= self.corpus.len() * 3;
+        }
+        if fam.tiny && !only_seeded {
+            if i == 0 {
+                self.tiny_item(ctx, f);
+                return;
+            }
+            i -= 1;
+        }
+        if fam.crlf_corpus && !only_seeded {
+            if i < self.corpus.len() {
+                let file = &self.corpus[i];
+                let lf = file.text.replace("\r\n", "\n");
+                let crlf = lf.replace('\n', "\r\n");
+                // mixed: every third line ending is CRLF
+                let mut mixed = String::with_capacity(lf.len() + 16);
+                for (k, line) in lf.split_inclusive('\n').enumerate() {
+                    if k % 3 == 1 && line.ends_with('\n') {
+                        mixed.push_str(&line[..line.len() - 1]);
+                        mixed.push_str("\r\n");
+                    } else {
+                        mixed.push_str(line);
+                    }
+                }
+                for (name, text) in [("crlf", crlf), ("mixed", mixed)] {
+                    for le in ["Unix", "Windows"] {
+                        if quick && ((i % 2 == 0) != (le == "Unix")) && name == "mixed" {
+                            continue;
+                        }
+                        let mut c = Cfg::with_syntax(file.syntax);
+                        c.line_endings = le;
+                        c.indent_type = if i % 2 == 0 { "Tabs" } else { "Spaces" };
+                        f(
+                            ctx,
+                            &Eval {
+                                id: format!("crlf:{}:{name}:{le}", file.name),
+                                src: text.clone(),
+                                cfg: c,
+                                range: None,
+                                pinned: true,
+                                presig: None,
+                            },
+                        );
+                    }
+                }
+                return;
+            }
+            i -= self.corpus.len();
         }
         let seeded = match ctx.tier {
             Tier::Quick => 600,
@@ -450,13 +507,29 @@ impl Work {
             let next = toks.get(k + 1).map(|n| class(n)).unwrap_or_else(|| "EOF".to_string());
             let presig = format!("{shape_name}:{kind}:{}|{next}", class(t));
             ctx.count("cenum.cases");
+            // configurations: default options at each width, plus one row with the non-default
+            // layout options (collapse, call sugar, spaces) at width 120
+            let mut cfgs: Vec<(String, Cfg)> = Vec::new();
             for w in widths {
                 let mut c = base.clone();
                 c.column_width = *w;
+                cfgs.push((format!("w{w}"), c));
+            }
+            {
+                let mut c = base.clone();
+                c.collapse_simple_statement = "Always";
+                c.call_parentheses = "None";
+                c.indent_type = "Spaces";
+                c.indent_width = 2;
+                c.quote_style = "AutoPreferSingle";
+                cfgs.push(("alt".to_string(), c));
+            }
+            for (wname, c) in cfgs {
+                let w = &wname;
                 f(
                     ctx,
                     &Eval {
-                        id: format!("cenum:{}:{shape_name}:tok{k}:w{w}", file.name),
+                        id: format!("cenum:{}:{shape_name}:tok{k}:{w}", file.name),
                         src: modified.clone(),
                         cfg: c,
                         range: None,
@@ -464,6 +537,62 @@ impl Work {
                         presig: Some(presig.clone()),
                     },
                 );
+            }
+        }
+    }
+}
+
+impl Work {
+    /// Degenerate inputs: the shapes ordinary corpora do not contain.
+    fn tiny_item(&self, ctx: &mut Ctx, f: &mut dyn FnMut(&mut Ctx, &Eval)) {
+        let progs: [&str; 26] = [
+            "",
+            "\n",
+            "\n\n\n",
+            "   \t  ",
+            "  \n\t\n",
+            "-- only a comment",
+            "-- only a comment\n",
+            "--[[ only a block comment ]]",
+            "--[[ multi\nline\ncomment ]]\n\n",
+            "#!/usr/bin/env lua",
+            "#!/usr/bin/env lua\n",
+            "#!/usr/bin/env lua\n\n\n",
+            "#!/usr/bin/env lua   \n-- comment\n",
+            "#!/usr/bin/env lua\nreturn 1",
+            "#!/usr/bin/env lua\r\nprint(1)\r\n",
+            ";",
+            "return",
+            "return;",
+            "return -- c",
+            "break",
+            "x=1",
+            "x=1;",
+            "f()",
+            "do end",
+            "-- a\n\n-- b\n\n\n-- c",
+            "\r\n\r\n-- c\r\n\r\n",
+        ];
+        for (k, p) in progs.iter().enumerate() {
+            for syntax in ["Lua51", "Luau", "All"] {
+                for le in ["Unix", "Windows"] {
+                    let mut c = Cfg::with_syntax(syntax);
+                    c.line_endings = le;
+                    if !fmt::parses(p, &c) {
+                        continue;
+                    }
+                    f(
+                        ctx,
+                        &Eval {
+                            id: format!("tiny:{k}:{syntax}:{le}"),
+                            src: p.to_string(),
+                            cfg: c,
+                            range: None,
+                            pinned: true,
+                            presig: None,
+                        },
+                    );
+                }
             }
         }
     }
